@@ -1566,6 +1566,20 @@ def case_column(rng, ctx):
         bad = list(mask)[:-1] if rng.random() < 0.5 else list(mask) + [0]
         expect_reject(ctx, "mask_length_mismatch_rejected", "BinaryCIFColumn(data[%d], mask[%d])" % (n, len(bad)),
                       lambda: pdbx.BinaryCIFColumn(pdbx.BinaryCIFData(x), bad), (IndexError, ValueError))
+    if x.dtype.kind in "iu" and n >= 2 and rng.random() < 0.25 and fits(x.tolist(), "int32"):
+        # the data of a column may be handed over as any sequence, not only as list / tuple / ndarray
+        import array as _array
+        import collections as _collections
+        vals = [int(v) for v in x.tolist()]
+        forms = [("tuple", tuple(vals)), ("deque", _collections.deque(vals)), ("array.array", _array.array("q", vals))]
+        if len(set(np.diff(vals).tolist())) == 1 and vals[1] != vals[0]:
+            forms.append(("range", range(vals[0], vals[-1] + (1 if vals[1] > vals[0] else -1), vals[1] - vals[0])))
+        fname, seq = forms[int(rng.integers(len(forms)))]
+        ctx.op("BinaryCIFData(%s)" % fname)
+        ctx.oracle("column_roundtrip")
+        d = pdbx.BinaryCIFData(seq)
+        if np.shape(d.array) != (n,) or d.array.tolist() != vals or len(d) != n:
+            ctx.fail("column_roundtrip", "BinaryCIFData(%s of %d values): array shape %s, len %d" % (fname, n, np.shape(d.array), len(d)))
     col = build_column(x, specs, mask, mspecs)
     what = "BinaryCIFColumn(%s[%d]%s)" % (x.dtype.name, n, ", mask" if mask is not None else "")
     ctx.op("BinaryCIFColumn.serialize")
